@@ -512,8 +512,191 @@ def session_worker_prefix(prefix, depth, part):
 
 
 # ------------------------------------------------------------------- driver
+# ------------------------------------------------------------------ aliasing
+def alias_scenarios():
+    """Programs in which an expression object (or a list handed to a constructor / helper / ensure) is *reused or changed
+    by the caller after it was posted*: augmented assignment on a posted sum, a clause list extended after a node was
+    built from it, one sub-expression object inside several constraints, a compound item given to a fold helper and
+    used again.  Each scenario is written twice: `alias=True` performs those steps on shared objects, `alias=False`
+    builds every constraint from fresh expressions; both must denote the same program."""
+    from cspuz import count_true, fold_and, fold_or
+    from cspuz.expr import BoolExpr, IntExpr, Op
+
+    def decl(s):
+        x, y, z = s.int_var(0, 3), s.int_var(0, 3), s.int_var(0, 3)
+        b, c, d = s.bool_var(), s.bool_var(), s.bool_var()
+        return x, y, z, b, c, d
+
+    out = []
+
+    def sc(name):
+        def reg(fn):
+            out.append((name, fn))
+            return fn
+        return reg
+
+    for k1, k2 in ((2, 5), (2, 4), (6, 6), (0, 3)):
+        @sc("iadd[%d,%d]" % (k1, k2))
+        def _(s, alias, k1=k1, k2=k2):
+            x, y, z, b, c, d = decl(s)
+            if alias:
+                acc = x + y
+                s.ensure(acc == k1)
+                acc += z
+                s.ensure(acc == k2)
+            else:
+                s.ensure((x + y) == k1)
+                s.ensure((x + y + z) == k2)
+
+        @sc("isub[%d,%d]" % (k1, k2))
+        def _(s, alias, k1=k1, k2=k2):
+            x, y, z, b, c, d = decl(s)
+            if alias:
+                acc = x + y
+                keep = acc
+                acc -= z
+                s.ensure(acc == k2 - 4, keep == k1)
+            else:
+                s.ensure(((x + y) - z) == k2 - 4, (x + y) == k1)
+
+    for neg in (False, True):
+        @sc("ior[%s]" % neg)
+        def _(s, alias, neg=neg):
+            x, y, z, b, c, d = decl(s)
+            if alias:
+                e = b | c
+                s.ensure(~e if neg else e)
+                e |= d
+                s.ensure(e)
+            else:
+                s.ensure(~(b | c) if neg else (b | c))
+                s.ensure(b | c | d)
+
+        @sc("iand[%s]" % neg)
+        def _(s, alias, neg=neg):
+            x, y, z, b, c, d = decl(s)
+            if alias:
+                e = b & c
+                s.ensure(e if neg else ~e)
+                e &= d
+                s.ensure(~e)
+            else:
+                s.ensure((b & c) if neg else ~(b & c))
+                s.ensure(~(b & c & d))
+
+        @sc("clause-list-extended[%s]" % neg)
+        def _(s, alias, neg=neg):
+            x, y, z, b, c, d = decl(s)
+            if alias:
+                lits = [b, c]
+                e = BoolExpr(Op.OR, lits)
+                s.ensure(BoolExpr(Op.NOT, [e]) if neg else e)
+                lits.append(d)
+                s.ensure(BoolExpr(Op.OR, lits))
+                lits.reverse()
+                lits.pop()
+            else:
+                e = BoolExpr(Op.OR, [b, c])
+                s.ensure(BoolExpr(Op.NOT, [e]) if neg else e)
+                s.ensure(BoolExpr(Op.OR, [b, c, d]))
+
+        @sc("fold-item-reused[%s]" % neg)
+        def _(s, alias, neg=neg):
+            x, y, z, b, c, d = decl(s)
+            if alias:
+                e = (b | c) if not neg else (b & c)
+                f = fold_or(e, d) if not neg else fold_and(e, d)
+                s.ensure(~e if not neg else e)
+                s.ensure(f if not neg else ~f)
+                s.ensure(count_true(e, d) == (1 if not neg else 1))
+            else:
+                e1 = (b | c) if not neg else (b & c)
+                s.ensure(~e1 if not neg else e1)
+                f = fold_or((b | c), d) if not neg else fold_and((b & c), d)
+                s.ensure(f if not neg else ~f)
+                s.ensure(count_true((b | c) if not neg else (b & c), d) == 1)
+
+    @sc("sub-terms-reordered")
+    def _(s, alias):
+        x, y, z, b, c, d = decl(s)
+        if alias:
+            terms = [x, y]
+            e = IntExpr(Op.SUB, terms)
+            s.ensure(e == 3)
+            terms.reverse()
+            terms.append(z)
+            s.ensure(IntExpr(Op.ADD, terms) == 4)
+        else:
+            s.ensure(IntExpr(Op.SUB, [x, y]) == 3)
+            s.ensure(IntExpr(Op.ADD, [y, x, z]) == 4)
+
+    @sc("shared-subexpression")
+    def _(s, alias):
+        x, y, z, b, c, d = decl(s)
+        if alias:
+            t = x + y
+            s.ensure(t >= 2)
+            s.ensure((t + z) == 4, b.then(t == 3))
+            s.ensure(t <= 3, (t == 2) | b)
+        else:
+            s.ensure((x + y) >= 2)
+            s.ensure(((x + y) + z) == 4, b.then((x + y) == 3))
+            s.ensure((x + y) <= 3, ((x + y) == 2) | b)
+
+    @sc("ensure-list-changed-afterwards")
+    def _(s, alias):
+        x, y, z, b, c, d = decl(s)
+        if alias:
+            cons = [b, x >= 1]
+            s.ensure(cons)
+            cons.append(~b)
+            cons[0] = c
+        else:
+            s.ensure(b, x >= 1)
+
+    @sc("same-constraint-posted-twice")
+    def _(s, alias):
+        x, y, z, b, c, d = decl(s)
+        if alias:
+            e = (x + y) == 3
+            s.ensure(e)
+            s.ensure(e | b)
+            s.ensure(~b | e)
+        else:
+            s.ensure((x + y) == 3)
+            s.ensure(((x + y) == 3) | b)
+            s.ensure(~b | ((x + y) == 3))
+
+    return out
+
+
+def run_alias(part):
+    from cspuz import Solver
+
+    for name, fn in alias_scenarios():
+        case = {"form": "alias", "scenario": name}
+        ref = Solver()
+        try:
+            fn(ref, False)
+        except Exception as e:
+            raise RuntimeError("aliasing scenario %s (reference form) failed: %r" % (name, e))
+        sols = refsem.solutions(list(ref.variables), list(ref.constraints))
+        s = Solver()
+        try:
+            fn(s, True)
+        except Exception as e:
+            part.violation("alias:%s:construction-raises-%s" % (name.split("[")[0], type(e).__name__), case, {"exception": repr(e)[:200]})
+            continue
+        check_program(part, list(s.variables), list(s.constraints), case, s, "alias", sols=sols)
+        part.count("cspuz_trees")
+        part.add("alias", name)
+
+
 def worker(shard, part):
     what = shard[0]
+    if what == "alias":
+        run_alias(part)
+        return
     if what == "terms":
         _, strat, lo, hi, domains, deep = shard
         lst = _TERMS[strat]
@@ -565,6 +748,7 @@ def main(tier, seed, only=None):
         shards.append(("pairs", "pairs", lo, min(npairs, lo + 1500)))
     for n in ((1, 2, 3, 31, 32, 33, 64, 65, 127, 128, 129, 200, 255, 256, 257, 1100) if tier == "quick" else (1, 2, 3, 15, 16, 17, 31, 32, 33, 63, 64, 65, 100, 127, 128, 129, 200, 255, 256, 257, 300, 400, 511, 512, 513, 1100, 3000)):
         shards.append(("scale", n))
+    shards.append(("alias",))
     depth = 5 if tier == "quick" else 6
     # sessions: parallelise over the first two events
     first = build([]).enabled()
@@ -586,10 +770,10 @@ def main(tier, seed, only=None):
         "its min/max/max+1 (k<=1: every) attained value; <=1-operator stratum repeated under 4 more domain pairs "
         "(singleton, negative, wide); conjunctions of every ordered pair of <=1-operator boolean terms posted through 7 forms of ensure() (single, varargs, list, tuple, generator, "
         "map, nested iterators).  Scale family (not exhaustive): flat count_true / fold_or / fold_and / alldifferent and left-deep + / & chains over n pinned "
-        "variables for n around 32, 64, 128, 256 (thorough 512), where the expected verdict is known by construction.  E2: BFS over sessions "
+        "variables for n around 32, 64, 128, 256 (thorough 512), where the expected verdict is known by construction.  Aliasing: %d scripted programs in which a posted expression object, or a list given to a node constructor / fold helper / ensure, is reused or changed by the caller afterwards (augmented assignment, extended clause lists, shared sub-expressions), each compared with the same program built from fresh objects.  E2: BFS over sessions "
         "of declare/ensure/find_answer/solve events to depth %d (<= %d variables, <= %d constraints) with canonical-state dedup; "
         "each find_answer judged against brute-force solutions and against a fresh Solver.  Non-trivial = programs whose "
-        "tree reached the backend (not folded by Python), counted per verdict." % (", k=2" if tier != "quick" else "", "k=2 quick; FULL k=2, RED k=2 and TINY={i0 | b0} k=3 thorough", depth, MAX_VARS, MAX_CONS),
+        "tree reached the backend (not folded by Python), counted per verdict." % (", k=2" if tier != "quick" else "", "k=2 quick; FULL k=2, RED k=2 and TINY={i0 | b0} k=3 thorough", len(alias_scenarios()), depth, MAX_VARS, MAX_CONS),
     )
     run.assumptions = [
         "backend under test: cspuz's Z3Backend on z3-solver as installed (the only backend runnable offline); sugar family is C03",
@@ -622,6 +806,9 @@ def replay(case):
         doms = tuple(tuple(d) for d in case["domains"])
         run_term(part, case["kind"], case["src"], doms, "replay", True)
         mine = [v for v in part.violations if v.case.get("goal") == case.get("goal")] or part.violations
+    elif case["form"] == "alias":
+        run_alias(part)
+        mine = [v for v in part.violations if v.case.get("scenario") == case.get("scenario")]
     elif case["form"] == "pair":
         run_pair(part, case["src"][0], case["src"][1], "replay")
         mine = part.violations
